@@ -30,6 +30,7 @@
 EXTENDS Naturals, Sequences, FiniteSets, TLC, Json
 
 CONSTANTS Embeddings,     \* embedding tags enabled in this configuration
+          CallCopyVariants, \* base-workflow variants used for the copies of positions inside a call job
           DeepForms,      \* forms of positions at which the nested-operator embeddings (DeepEmbeddings) are linted too
           Variants        \* base-workflow variants: 0 = minimal, 1 = decorated (other jobs and steps, needs, matrix),
                           \* 2 / 3 = the same two with the value written as a double-quoted scalar
@@ -129,7 +130,7 @@ kSvc  == "jobs.<job_id>.services"
 kStr  == "jobs.<job_id>.strategy"
 kWith == "jobs.<job_id>.steps.with"
 
-Positions == {
+BasePositions == {
   \* ---- workflow level (VisitWorkflowPre / VisitWorkflowPost)
   P(<<"name">>, "tmpl", "", ""),
   P(<<"run-name">>, "tmpl", "", "run-name"),
@@ -176,6 +177,7 @@ Positions == {
   P(<<"jobs", J, "if">>, "cond", "", "jobs.<job_id>.if"),
   P(<<"jobs", J, "if">>, "one", "braces", "jobs.<job_id>.if"),
   P(<<"jobs", J, "if">>, "cond", "call", "jobs.<job_id>.if"),
+  P(<<"jobs", J, "if">>, "one", "braces-call", "jobs.<job_id>.if"),
   P(<<"jobs", J, "strategy", "fail-fast">>, "one", "", kStr),
   P(<<"jobs", J, "strategy", "max-parallel">>, "one", "", kStr),
   P(MX, "one", "expr", kStr),
@@ -253,6 +255,16 @@ Positions == {
   P(ST \o <<"continue-on-error">>, "one", "", "jobs.<job_id>.steps.continue-on-error"),
   P(ST \o <<"timeout-minutes">>, "one", "", "jobs.<job_id>.steps.timeout-minutes")
 }
+(* A job that calls a reusable workflow (`uses:`) may also have name, if, concurrency, strategy and services besides
+   with / secrets (parse.go: the keys that are not "steps only"); the table does not distinguish the two kinds of job,
+   so every position below these sections exists a second time, rendered inside a call job, with the same row.
+   (name#call, if#call, if#braces-call, uses, with, secrets are listed above.) *)
+CallSections == {"concurrency", "strategy", "services"}
+CallVar(v) == IF v = "" THEN "call" ELSE v \o "-call"
+CallCopies == {PA(p.path, p.form, CallVar(p.var), p.code, p.alt) :
+                 p \in {q \in BasePositions : Len(q.path) >= 3 /\ q.path[1] = "jobs" /\ q.path[3] \in CallSections}}
+Positions == BasePositions \cup CallCopies
+IsCallCopy(p) == p \in CallCopies
 (* Not catalogued, with the reason:
    - event names, webhook `types`, branch/tag filter patterns, `cron`, `needs`: no table key and other
      rules (events, glob, job-needs) report on a placeholder there, so the verdict of the expression
@@ -368,6 +380,7 @@ PickEmb == /\ cur.stage = "posname"
                 LET p == cur.p IN
                 /\ EmbOK(p, cur.name, e)
                 /\ e \in DeepEmbeddings => v = 0
+                /\ IsCallCopy(p) => v \in CallCopyVariants
                 /\ cur' = [cur EXCEPT !.stage = "vec", !.emb = e, !.variant = v]
                 /\ tc' = ToJson([kind |-> "vec", pos |-> cur.pos, form |-> p.form, key |-> cur.key,
                                  name |-> cur.name, nkind |-> Kind(cur.name), emb |-> e, variant |-> v,
